@@ -1,4 +1,5 @@
 import Balm.Trans
+import Balm.TransNet
 import Balm.Expr
 import Balm.KeyBits
 /-! C17: `Balm.Net.ofExprs_congr` – logically equivalent update formulas denote the same semantic
